@@ -1,6 +1,7 @@
 package main
 
 import (
+	"sort"
 	"fmt"
 	"go/ast"
 	"go/token"
@@ -568,6 +569,74 @@ func checkC17(p *Prog, r *Report) {
 		if len(calls) == 0 {
 			r.Fail("Foundation checksum inputs", p.Pos(fo.Body.Pos()), "no CRC-32 checksum call found")
 		}
+	}
+
+	// ---- R17.6 which preference applies ---------------------------------------------------------------------
+	r.Rule("R17.6", "LocalPreference decides by candidate type first: a relay candidate gets its relay-protocol preference whatever its own transport; only non-relay candidates take the RFC 6544 TCP branch or the default. Foundation() is a pure function of type, address and network type (plus the explicit override): anything else it reads or writes must be reset wherever one of those inputs changes.", 2)
+	if f := p.Fn("candidateBase.LocalPreference"); r.Anchor("candidateBase.LocalPreference", f != nil) {
+		t := p.NewTable(f)
+		t.Run()
+		bad, rows := "", 0
+		for _, pa := range t.Paths {
+			relay := ""
+			for _, d := range pa.Hist {
+				if d.Atom.Kind == "enum" && p.IsField(d.Atom.X, "candidateBase.candidateType") {
+					switch d.Val {
+					case "==CandidateTypeRelay":
+						relay = "yes"
+					case "!=CandidateTypeRelay":
+						relay = "no"
+					}
+				}
+			}
+			res := stripVarLines(strings.Join(pa.Results, ","))
+			isRelayPref := strings.HasSuffix(res, ".relayLocalPreference")
+			rows++
+			switch {
+			case relay == "":
+				bad = "a result (" + res + ") is produced before the candidate type was tested against relay"
+			case relay == "yes" && !isRelayPref:
+				bad = "a relay candidate gets " + res
+			case relay == "no" && isRelayPref:
+				bad = "a non-relay candidate gets the relay-protocol preference"
+			}
+		}
+		r.Check(bad == "" && rows >= 2, "LocalPreference: relay candidates get the relay-protocol preference", p.Pos(f.Body.Pos()), fmt.Sprintf("%d rows", rows), bad+": a relay reached over TCP/TLS would outrank every UDP relay")
+	}
+	if f := p.Fn("candidateBase.Foundation"); r.Anchor("candidateBase.Foundation", f != nil) {
+		bad := p.cacheIncoherence(f, []string{"candidateBase.foundationOverride", "candidateBase.candidateType", "candidateBase.address", "candidateBase.networkType"},
+			func(g *Func) bool { return strings.HasPrefix(g.Root().Name, "NewCandidate") || g.Root().Name == "UnmarshalCandidate" })
+		for fv := range p.Effects(f).Writes {
+			bad = append(bad, "Foundation() writes "+p.FieldName(fv)+", which must then be reset wherever the network type or address changes")
+		}
+		// a written memo is acceptable only if every writer of an input resets it: re-check the writes
+		var still []string
+		for _, b := range bad {
+			still = append(still, b)
+		}
+		if len(p.Effects(f).Writes) > 0 {
+			still = still[:0]
+			for fv := range p.Effects(f).Writes {
+				for _, g := range p.AllFuncs {
+					if g.Body == nil || g == f || strings.HasPrefix(g.Root().Name, "NewCandidate") {
+						continue
+					}
+					eff := p.Effects(g)
+					wi := false
+					for w := range eff.Writes {
+						switch p.FieldName(w) {
+						case "candidateBase.candidateType", "candidateBase.address", "candidateBase.networkType", "candidateBase.foundationOverride":
+							wi = true
+						}
+					}
+					if wi && !eff.Writes[fv] {
+						still = append(still, p.FieldName(fv)+" (memo written by Foundation) is not reset by "+g.Name)
+					}
+				}
+			}
+		}
+		sort.Strings(still)
+		r.Check(len(still) == 0, "Foundation depends only on type, address and network type", p.Pos(f.Body.Pos()), "no stale memo", strings.Join(still, "; ")+": candidates of equal type, address and network type can report different foundations")
 	}
 }
 
